@@ -145,8 +145,16 @@ def m3(ctx):
         raise mir.AnchorMissing("loop over get_group_compatible_weak_variants in ematch_node")
     ctx.check(C.loop_exhaustive(b, lp), "all-variants", "the variant loop exits only when the variants are exhausted",
               "the variant loop of ematch_node can be left early (break/return)", where_of(b, lp[0]))
+    # the loop ranges over the variant enumeration itself — not over "the variants, or just the stored spelling when .."
+    src = strip_role(lp[1])
+    while isinstance(src, tuple) and src[0] == "call" and src[1] in C.PASS_ADAPTORS and src[3]:
+        src = strip_role(src[3][0])
+    ctx.check(isinstance(src, tuple) and src[0] == "call" and src[1] == "get_group_compatible_weak_variants", "variants-unconditional",
+              "the candidates of ematch_node are exactly get_group_compatible_weak_variants(nn)",
+              "ematch_node iterates %s: on some path the candidates are not the full variant enumeration of the e-node. Which grandchild binds which pattern variable depends on the orientation of a symmetric child even when the child patterns mention no slot, so an instance that exists only as a group variant of the stored node is never matched" % role_str(src)[:120], where_of(b, lp[0]))
     v = [c for c in b.calls if c.callee and c.callee.name == "get_group_compatible_weak_variants"]
     for c in v:
+        C.check_only_allowed_skips(ctx, b, c.bb, [], "variant-enumeration", "enumerating the group-compatible variants of the e-node")
         ctx.check(strip_role(b.role_of_operand(c.args[1])) == ("param", "nn"), "variants-of-the-enode", "variants are those of the e-graph node nn",
                   "variants are enumerated for %s" % role_str(b.role_of_operand(c.args[1])), where_of(b, c.bb))
     ext = C.result_sinks(b, "out")
